@@ -628,6 +628,8 @@ def apply_season(model, name, cls, op, node):
         if node.is_mapping() and all(node.has_attribute(p) for p in op[1]):
             parts = [str(node.get_attribute(p).get_value()) for p in op[1]]
             node.set_value(op[2].join(parts))
+    elif k == 'raise_seasoning_bare':
+        raise yatiml.SeasoningError()
     elif k == 'raise_seasoning':
         raise yatiml.SeasoningError('savorizer of %s refuses' % name)
     # --- sabotage (C01/C04/C08): deliberately produce wrong nodes ---------------
